@@ -25,7 +25,7 @@ ASSUMPTIONS = [
     "bisimulation theorem is proved for the account/storage/refund/snapshot core)",
 ]
 
-TRIGGERS = {1: "C16.selfdestruct_residue", 2: "C16.create_over_storage", 3: "C16.stale_dirty_index"}
+TRIGGERS = {1: "C16.removed_account_residue", 2: "C16.create_over_storage", 3: "C16.stale_dirty_index"}
 OUTSIDE_CONTRACT = 4
 
 
